@@ -676,4 +676,43 @@ def deposit (so : ScriptOf) (a : Account) (amount : Int) (rate : Int) (best expi
   | .error r => refuse r
   | .ok tx => spendAccount so a .deposit tx wt (mods ++ [.state StatePendingUpdate]) best f
 
+/-! ## wallet input leases of a deposit
+
+`FundPsbt` leases (locks) every wallet input it selects.  `inputsForDeposit` builds `releaseInputs` from the returned
+leases and calls it on each of its own error paths after funding; `DepositAccount` calls it when `spendAccount`
+fails.  An accepted deposit keeps the leases (the inputs are spent by the broadcast transaction). -/
+
+inductive Locks
+  | none | held (n : Nat) | released (n : Nat)
+deriving DecidableEq, Repr
+
+/-- the prefix of `DepositAccount` up to a successful `FundPsbt`: the funded packet if the call was reached and
+succeeded -/
+def depositReachesFunding (a : Account) (amount rate : Int) (best expiryHeight : UInt32) (newVersion : Nat)
+    (maxValue : Option Int) (fd : Option Funded) : Option Funded :=
+  if a.state ≠ StateOpen then .none else
+  if newVersion < a.version then .none else
+  match maxValue with
+  | .none => .none
+  | some maxV =>
+  if depositChecksMin ∧ a.value + amount < MinAccountValue then .none else
+  if a.value + amount > maxV then .none else
+  match optExpiry expiryHeight best with
+  | .error _ => .none
+  | .ok _ =>
+  match acctInputFee (determineWitnessType a best) rate with
+  | .error _ => .none
+  | .ok _ => fd
+
+/-- what happened to the leases when `DepositAccount` returned -/
+def depositLocks (so : ScriptOf) (a : Account) (amount rate : Int) (best expiryHeight : UInt32) (newVersion : Nat)
+    (maxValue : Option Int) (fd : Option Funded) (f : Faults) : Locks :=
+  match depositReachesFunding a amount rate best expiryHeight newVersion maxValue fd with
+  | .none => .none
+  | some fdv =>
+    if fdv.inputs.isEmpty then .none
+    else if (deposit so a amount rate best expiryHeight newVersion maxValue fd f).refusal = Option.none then
+      .held fdv.inputs.length
+    else .released fdv.inputs.length
+
 end Pool.C07
